@@ -147,7 +147,8 @@ CacheAllowed(s) ==
         /\ IsTopK([i \in DOMAIN ixs |-> items[ixs[i] + 1]], items, s.limit)
 
 SearchProps(S) ==
-  IF ~Has(E, "hits") THEN Join2(C01(E, l), IF Has(E, "acc") THEN Res(AccFindings(E, l), <<"C19">>) ELSE NoRes)
+  IF ~Has(E, "hits") THEN JoinAll(<<C01(E, l), IF Has(E, "acc") THEN Res(AccFindings(E, l), <<"C19">>) ELSE NoRes,
+                                    C10(E, S, l)>>)      \* a search that does not return is not what a fresh store returns
   ELSE JoinAll(<<
          C01(E, l),
          JoinAll([i \in DOMAIN E.hits |-> C02Hit(E.hits[i], S, l)]),
